@@ -66,6 +66,72 @@ pub closed spec fn inv(a: A) -> bool {
 
 pub closed spec fn present(a: A, v: int) -> bool { 0 <= v < a.tag.len() && a.tag[v] != 0 }
 
+/// what keys() must return: the present ids, each once, in ascending order
+pub closed spec fn is_present_list(a: A, ks: Seq<usize>) -> bool {
+    &&& forall|k: int| 0 <= k < ks.len() ==> present(a, (#[trigger] ks[k]) as int)
+    &&& forall|k: int, l: int| 0 <= k < l < ks.len() ==> ks[k] < ks[l]
+    &&& forall|v: int| present(a, v) ==> ks.contains(v as usize)
+}
+
+/// what len() must return: the number of present ids
+pub closed spec fn present_count_upto(tag: Seq<int>, n: int) -> int
+    decreases n
+{
+    if n <= 0 { 0 } else { present_count_upto(tag, n - 1) + (if tag[n - 1] != 0 { 1int } else { 0int }) }
+}
+pub closed spec fn present_count(a: A) -> int { present_count_upto(a.tag, a.tag.len() as int) }
+
+/// an ascending duplicate-free list of exactly the present ids below n has present_count_upto(n) entries
+pub proof fn lemma_present_list_len(tag: Seq<int>, ks: Seq<usize>, n: int)
+    requires
+        0 <= n <= tag.len() <= usize::MAX,
+        forall|k: int| 0 <= k < ks.len() ==> 0 <= (#[trigger] ks[k]) < n && tag[ks[k] as int] != 0,
+        forall|k: int, l: int| 0 <= k < l < ks.len() ==> ks[k] < ks[l],
+        forall|v: int| 0 <= v < n && tag[v] != 0 ==> ks.contains(v as usize),
+    ensures ks.len() == present_count_upto(tag, n),
+    decreases n,
+{
+    if n > 0 {
+        if tag[n - 1] != 0 {
+            // n-1 is present, hence listed, and it is the largest: it is the last entry
+            assert(ks.contains((n - 1) as usize));
+            let j = choose|j: int| 0 <= j < ks.len() && ks[j] == (n - 1) as usize;
+            assert(j == ks.len() - 1) by {
+                if j < ks.len() - 1 { assert(ks[j] < ks[ks.len() - 1]); assert((ks[ks.len() - 1] as int) < n); }
+            }
+            let t = ks.drop_last();
+            assert forall|k: int| 0 <= k < t.len() implies 0 <= (#[trigger] t[k]) < n - 1 && tag[t[k] as int] != 0 by {
+                assert(t[k] == ks[k]);
+                assert(ks[k] < ks[ks.len() - 1]);
+            }
+            assert forall|k: int, l: int| 0 <= k < l < t.len() implies t[k] < t[l] by { assert(t[k] == ks[k] && t[l] == ks[l]); }
+            assert forall|v: int| 0 <= v < n - 1 && tag[v] != 0 implies t.contains(v as usize) by {
+                assert(ks.contains(v as usize));
+                let i = choose|i: int| 0 <= i < ks.len() && ks[i] == v as usize;
+                assert(i != ks.len() - 1) by { if i == ks.len() - 1 { assert(ks[i] as int == v); assert(ks[j] as int == n - 1); } }
+                assert(t[i] == ks[i]);
+            }
+            lemma_present_list_len(tag, t, n - 1);
+        } else {
+            assert forall|k: int| 0 <= k < ks.len() implies 0 <= (#[trigger] ks[k]) < n - 1 && tag[ks[k] as int] != 0 by {
+                if ks[k] == (n - 1) as usize { assert(tag[ks[k] as int] != 0); }
+            }
+            lemma_present_list_len(tag, ks, n - 1);
+        }
+    } else {
+        if ks.len() > 0 { assert(0 <= ks[0] < n); }
+    }
+}
+
+pub proof fn lemma_present_list_count(a: A, ks: Seq<usize>)
+    requires is_present_list(a, ks), a.tag.len() <= usize::MAX,
+    ensures ks.len() == present_count(a),
+{
+    assert forall|v: int| 0 <= v < a.tag.len() && a.tag[v] != 0 implies ks.contains(v as usize) by { assert(present(a, v)); }
+    assert forall|k: int| 0 <= k < ks.len() implies 0 <= (#[trigger] ks[k]) < a.tag.len() && a.tag[ks[k] as int] != 0 by { assert(present(a, ks[k] as int)); }
+    lemma_present_list_len(a.tag, ks, a.tag.len() as int);
+}
+
 // -------------------------------- edges --------------------------------
 
 pub closed spec fn lookup(s: Seq<(Label, usize)>, k: Label) -> Option<usize> {
